@@ -9,10 +9,10 @@ import (
 // Inj is one injected catalogue entry.
 type Inj struct {
 	Entry  string `json:"e"`
-	N      int    `json:"n"`              // unique number substituted for @N@
-	File   string `json:"f"`              // "main" | "mod" (declarations module included at top level) | "stm" (statements module included inside vcl_recv)
-	Nested int    `json:"nest,omitempty"` // 0 = top level of the subroutine body, 1 = inside an if branch, 2 = inside the else branch
-	Ign    string `json:"ign,omitempty"`  // "" | "bare" | "rule" | "other": kind of `// falco-ignore-next-line` comment put before it
+	N      int    `json:"n"`                // unique number substituted for @N@
+	File   string `json:"f"`                // "main" | "mod" (declarations module included at top level) | "stm" (statements module included inside vcl_recv)
+	Nested int    `json:"nest,omitempty"`   // 0 = top level of the subroutine body, 1 = inside an if branch, 2 = inside the else branch
+	Ign    string `json:"ign,omitempty"`    // "" | "bare" | "rule" | "other": kind of `// falco-ignore-next-line` comment put before it
 	Bottom bool   `json:"bottom,omitempty"` // declaration part goes after the skeleton declarations instead of before
 }
 
@@ -38,7 +38,7 @@ type Input struct {
 	ScopeName  string `json:"scope_name,omitempty"`
 	ScopeStyle int    `json:"scope_style,omitempty"`
 	HasMod     bool   `json:"mod,omitempty"`
-	HasStm     bool   `json:"stm,omitempty"` // a statements-only module included inside the body of vcl_recv
+	HasStm     bool   `json:"stm,omitempty"`     // a statements-only module included inside the body of vcl_recv
 	ModDir     string `json:"mod_dir,omitempty"` // "inc" (needs -I inc) or "." (next to the main file)
 	Injs       []Inj  `json:"injs,omitempty"`
 	Syntax     *Syn   `json:"syntax,omitempty"`
@@ -361,7 +361,9 @@ func build(in *Input) (*Built, error) {
 // counts after applying the overrides of a configuration to the constructed diagnostics.
 type counts struct{ E, W, I int }
 
-func (c counts) String() string { return fmt.Sprintf("(%d errors, %d warnings, %d infos)", c.E, c.W, c.I) }
+func (c counts) String() string {
+	return fmt.Sprintf("(%d errors, %d warnings, %d infos)", c.E, c.W, c.I)
+}
 
 func effective(diags []Diag, cfg Cfg) counts {
 	ov := map[string]string{}
